@@ -117,9 +117,12 @@ def generate_stream_source(rng, tier):
         # the run that is collected is the second one on this Config object, after Config.add(more)
         extra = wl.gen_config(rng, tbl, max_ctx=2, max_tests=2, window_layout="disjoint")
         extra["carrier"], extra["build"], extra["share_document"], extra["layout"] = "dict", "direct", False, "contexts"
-        scn["add_after_run"] = extra
-        nmsg += sum(len(c["entries"]) for c in extra["contexts"])
-        scn["orders"] = [list(range(nmsg))] + [rng.sample(range(nmsg), nmsg) for _ in range(rng.randint(1, 2))]
+        taken = {pl.context_key(c)[:2] for c in cfg["contexts"]}
+        extra["contexts"] = [c for c in extra["contexts"] if pl.context_key(c)[:2] not in taken]
+        if extra["contexts"]:
+            scn["add_after_run"] = extra
+            nmsg += sum(len(c["entries"]) for c in extra["contexts"])
+            scn["orders"] = [list(range(nmsg))] + [rng.sample(range(nmsg), nmsg) for _ in range(rng.randint(1, 2))]
     return scn
 
 
